@@ -105,7 +105,7 @@ def run_harness(exe, lines, chunk=256, par=None, timeout=3000):
         outs = list(ex.map(one, range(par)))
     import shutil
     shutil.rmtree(sd, ignore_errors=True)
-    res = {"FAIL": [], "CRASH": [], "ENC": {}, "MUT": {}, "ACC": [], "MCRASH": [], "DV": {}, "MUTENC": {}, "MCAPPED": []}
+    res = {"FAIL": [], "CRASH": [], "ENC": {}, "MUT": {}, "ACC": [], "MCRASH": [], "DV": {}, "MUTENC": {}, "MCAPPED": [], "DEC": {}}
     for out in outs:
         for l in out.splitlines():
             t = l.split(" ", 2)
@@ -119,6 +119,9 @@ def run_harness(exe, lines, chunk=256, par=None, timeout=3000):
             elif t[0] == "MUT":
                 f = l.split(" ")
                 res["MUT"][int(f[1])] = (int(f[2]), int(f[3]), int(f[4]), bytes.fromhex(f[5]) if len(f) > 5 else b"")
+            elif t[0] == "DEC":
+                f = l.split(" ")
+                res["DEC"][int(f[1])] = (int(f[2]), bytes.fromhex(f[3]) if len(f) > 3 else b"")
             elif t[0] == "MUTENC":
                 f = l.split(" ")
                 res["MUTENC"][int(f[1])] = bytes.fromhex(f[2]) if len(f) > 2 else b""
@@ -387,6 +390,36 @@ def prod_inputs(scale, rnd):
     return out
 
 
+def bmir_inputs(cx, exe):
+    """Real binary-MIR files written by MIR_write (mir.c) from mir-tests/*.mir: the stream must be accepted by the header's
+    decoder, and re-encoding the payload with the header's encoder must reproduce the file byte for byte."""
+    import glob
+    files = sorted(glob.glob(os.path.join(vlib.REPO, "mir-tests", "*.mir")))
+    if not files:
+        return []
+    d, objs, cc, flags = vlib.build_lib("plain", units=("mir.c",))
+    tool = os.path.join(d, "c12_bmir.%d" % os.getpid())
+    vlib.cc_link(cc, flags, [os.path.join(vlib.HARNESS, "c12_bmir.c")], objs, tool)
+    streams = []
+    for fn in files:
+        p = subprocess.run([tool, fn], stdout=subprocess.PIPE, stderr=subprocess.PIPE, timeout=120)
+        if p.returncode == 0 and p.stdout[:3] == b"MIR":
+            streams.append((os.path.basename(fn), p.stdout))
+    os.unlink(tool)
+    if not streams:
+        raise MachineryError("c12_bmir produced no binary MIR")
+    res = run_harness(exe, ["X %d %d %s" % (i, len(s), " ".join(map(str, s))) for i, (_, s) in enumerate(streams)], chunk=1)
+    out = []
+    for i, (name, s) in enumerate(streams):
+        if i not in res["DEC"] or not res["DEC"][i][0]:
+            cx.violation("reduce:bmir_rejected", "binary MIR written by MIR_write for %s is not accepted by reduce_decode" % name,
+                         {"kind": "X", "window": "prod", "stream": list(s)})
+            continue
+        out.append(("bmir:" + name, res["DEC"][i][1], s))
+    cx.ck.add("binary_mir_files", len(out))
+    return out
+
+
 def r_line(i, b):
     return "R %d %d %s" % (i, len(b), " ".join(map(str, b)))
 
@@ -466,14 +499,16 @@ def corrupt(cx, win, exe, inputs, cfg, strides, parse_max=None, aw_cfg=None):
     # small windows, the state in which the machine as written stops (the known defect classes)
     evs = [(i, kind, pos, val, None, msg) for i, kind, pos, val, msg in res["MCRASH"]] + [(i, kind, pos, val, eq, "") for i, kind, pos, val, eq in res["ACC"]]
     cases, meta, per_key = [], [], {}
+    nreal = 0
     lim = None if parse_max is None else max(parse_max, 60000)
     for i, kind, pos, val, eq, msg in evs:
         enc = res["MUT"][i][3] if i in res["MUT"] else res["MUTENC"].get(i)
         m = mutated(enc, kind, pos, val) if enc is not None else None
-        if m is None or (lim is not None and len(m) > lim):
-            cases.append(None)
+        if m is None or (lim is not None and len(m) > lim) or nreal >= 2000:
+            cases.append(None)   # not classified by TLC (too long / too many): reported under a key that is never "known"
         else:
             cases.append({"id": len(cases), "src": list(m), "inp": list(inputs[i][1])})
+            nreal += 1
         meta.append((i, kind, pos, val, eq, msg))
     real = [c for c in cases if c is not None]
     r, got = tlc_file(cfg, real, "%s classification of %d dying/accepted corruptions" % (cfg, len(real)))
@@ -498,7 +533,7 @@ def corrupt(cx, win, exe, inputs, cfg, strides, parse_max=None, aw_cfg=None):
         elif g is not None:
             k = KEY_WHY.get(g["why"], "reduce:accepted_damaged_stream:" + (g["why"] or "meaning"))
         else:
-            k = "reduce:accepted_corruption_unarbitrated"
+            k = "reduce:accepted_damaged_stream:unclassified"
         per_key[k] = per_key.get(k, 0) + 1
         if per_key[k] > 40:
             continue
@@ -555,7 +590,7 @@ def run(tier, mutate=None, only=None):
         # the model is still checked; only its replay needs the small window
         for win in ("w8", "w16"):
             W = WINDOWS[win]
-            r, rows = tlc_rows(W["enum"][0], {"C12COST": T["cost"][win]}, W["enum"][0], allow_violation=True)
+            r, _ = tlc_rows(W["enum"][0], {"C12COST": T["cost"][win]}, W["enum"][0], allow_violation=True, on_row=lambda row: None)
             if r.rc == 12:
                 raise MachineryError("model-level check failed: %s" % r.violation)
             cx.tlc(r)
@@ -564,7 +599,14 @@ def run(tier, mutate=None, only=None):
     # ---- production constants
     if only in (None, "prod"):
         pin = prod_inputs(T["prod_scale"], rnd)
-        roundtrip(cx, "prod", exe["prod"], pin, "Reduce_parse.cfg", parse_max=T["prod_parse_max"])
+        bm = bmir_inputs(cx, exe["prod"])
+        pin += [(n, b) for n, b, _ in bm]
+        rres = roundtrip(cx, "prod", exe["prod"], pin, "Reduce_parse.cfg", parse_max=T["prod_parse_max"])
+        for k, (n, b, s) in enumerate(bm):
+            i = len(pin) - len(bm) + k
+            if i in rres["ENC"] and rres["ENC"][i][1] != s:
+                cx.violation("reduce:bmir_encoding_differs", "re-encoding the payload of %s does not reproduce the MIR_write output" % n,
+                             {"kind": "R", "window": "prod", "input": list(b), "input_len": len(b)})
         strides = []
         for name, b in pin:
             est = max(1, len(b))
